@@ -11,7 +11,8 @@
      names  every file name seen in any snapshot                 pre    directory before (content index per name)
      dests  [name, dir, base] of every path of the model: the backup of slot n is  dir "#" base "." n "#"
      exempt names of debug dumps requested with -write-*  (the statement sets them aside)
-     steps  open [d, mode, data, snap] | discard [snap] | finalise / gate [halt, prims, bad, crashes, snap, ...]
+     steps  open [d, mode, data, snap] | discard [snap, tmpleft] | finalise / gate [halt, prims, bad, crashes, snap, tmpleft,
+            ...]   (tmpleft: files left in the directory of temporary files)
    A snapshot <<>> means "not taken".                                                                              *)
 EXTENDS WarnCountOps, TLC, Json, IOUtils
 
@@ -59,44 +60,48 @@ Resolutions(pd, mixed) ==
   {[i \in DOMAIN pd |-> IF pd[i].final \in mixed THEN [pd[i] EXCEPT !.mode = ch[pd[i].final]] ELSE pd[i]] :
       ch \in [mixed -> {"w", "a"}]}
 
-\* a completed finalisation of plan pl from directory f0, observed directory snap, observed primitives prims
-CompleteVerdict(e, f0, pl, snap, prims) ==
+\* a completed finalisation of plan pl from directory f0, observed directory snap
+CompleteVerdict(e, f0, pl, snap) ==
   LET f == FsOf(e, snap) IN
   IF \E p \in P(e) : ~HoldsWhatWasWritten(f0, f, pl, p) THEN "destination-does-not-hold-what-was-written-for-it"
   ELSE IF \E p \in P(e) : ~KeptUnderFirstFree(f0, f, pl, p, e.K) THEN "pre-existing-file-not-kept-under-first-free-backup-name"
   ELSE IF ~FinalisedOf(f0, f, pl, P(e), e.K) THEN "other-backup-names-changed"
   ELSE IF f # FinalOf(f0, pl, e.K) THEN "SPEC-INCONSISTENT"
   ELSE IF OutsideVerdict(e, snap) # "ok" THEN OutsideVerdict(e, snap)
-  ELSE IF prims # Kinds(f0, pl, e.K) THEN "primitive-sequence-differs-from-the-model"
   ELSE "ok"
 
-\* finalisation interrupted by an injected exception before primitive k + 1
-CrashVerdict(e, f0, pl, k, snap, prims) ==
+\* finalisation interrupted by an injected exception before primitive k + 1.  Required (the statement): every pre-existing
+\* file is intact under its own or a backup name; beyond it: every destination is, on its own, in a state its finalisation
+\* passes through, and nothing else appeared or changed.  Whether the directory is EXACTLY the model's state after k
+\* primitives (same order of destinations, same primitives) is reported as a fact, not required.
+Restrict(e, f, p) == [n \in 0..e.K |-> f[<<p, n>>]]
+PassesThrough(e, f0, pl, f) ==
+  \A p \in P(e) : \E k \in 0..NPrims(f0, pl, e.K) : Restrict(e, f, p) = Restrict(e, StateAfter(f0, pl, e.K, k), p)
+CrashVerdict(e, f0, pl, k, snap) ==
   LET f == FsOf(e, snap) IN
-  IF k > NPrims(f0, pl, e.K) THEN "HARNESS-k-beyond-the-primitives-of-the-model"
-  ELSE IF ~SafeOf(f0, f, pl, P(e), e.K) THEN "pre-existing-file-lost-by-interrupted-finalisation"
-  ELSE IF f # StateAfter(f0, pl, e.K, k) THEN "interrupted-finalisation-left-a-directory-the-model-does-not-have"
+  IF ~SafeOf(f0, f, pl, P(e), e.K) THEN "pre-existing-file-lost-by-interrupted-finalisation"
+  ELSE IF ~PassesThrough(e, f0, pl, f) THEN "destination-in-a-state-finalisation-never-passes-through"
   ELSE IF OutsideVerdict(e, snap) # "ok" THEN OutsideVerdict(e, snap)
-  ELSE IF prims # SubSeq(Kinds(f0, pl, e.K), 1, k) THEN "primitive-sequence-differs-from-the-model"
   ELSE "ok"
+CrashExact(e, f0, pl, k, snap, prims) ==
+  /\ k <= NPrims(f0, pl, e.K)
+  /\ FsOf(e, snap) = StateAfter(f0, pl, e.K, k)
+  /\ prims = SubSeq(Kinds(f0, pl, e.K), 1, k)
 
 \* finalisation with destinations that cannot be written (bad): pre-existing files are safe, and every destination is,
 \* on its own, in a state finalisation passes through (untouched ... finalised); nothing is said about where it stops
-Restrict(e, f, p) == [n \in 0..e.K |-> f[<<p, n>>]]
 BadVerdict(e, f0, pl, bad, snap) ==
-  LET f == FsOf(e, snap)
-      N == NPrims(f0, pl, e.K) IN
+  LET f == FsOf(e, snap) IN
   IF ~SafeOf(f0, f, pl, P(e), e.K) THEN "pre-existing-file-lost-by-failed-finalisation"
   ELSE IF \E p \in bad : Restrict(e, f, p) # Restrict(e, f0, p) THEN "unwritable-destination-changed"
-  ELSE IF \E p \in P(e) : \A k \in 0..N : Restrict(e, f, p) # Restrict(e, StateAfter(f0, pl, e.K, k), p)
-       THEN "destination-in-a-state-finalisation-never-passes-through"
+  ELSE IF ~PassesThrough(e, f0, pl, f) THEN "destination-in-a-state-finalisation-never-passes-through"
   ELSE IF OutsideVerdict(e, snap) # "ok" THEN OutsideVerdict(e, snap)
   ELSE "ok"
 
 RECURSIVE CrashesVerdict(_, _, _, _, _)
 CrashesVerdict(e, f0, pl, cr, j) ==
   IF j > Len(cr) THEN "ok"
-  ELSE LET v == CrashVerdict(e, f0, pl, cr[j].k, cr[j].snap, cr[j].prims) IN
+  ELSE LET v == CrashVerdict(e, f0, pl, cr[j].k, cr[j].snap) IN
        IF v # "ok" THEN "crash(k=" \o ToString(cr[j].k) \o "," \o cr[j].exc \o "):" \o v
        ELSE CrashesVerdict(e, f0, pl, cr, j + 1)
 
@@ -106,8 +111,16 @@ FinaliseVerdict(e, f0, pl, s) ==
   IF bad # {} THEN BadVerdict(e, f0, pl, bad, s.snap)
   ELSE LET cv == CrashesVerdict(e, f0, pl, s.crashes, 1) IN
        IF cv # "ok" THEN cv
-       ELSE IF s.halt >= 0 THEN CrashVerdict(e, f0, pl, s.halt, s.snap, s.prims)
-       ELSE CompleteVerdict(e, f0, pl, s.snap, s.prims)
+       ELSE IF s.halt >= 0 THEN CrashVerdict(e, f0, pl, s.halt, s.snap)
+       ELSE CompleteVerdict(e, f0, pl, s.snap)
+
+\* number of observations of this finalisation that are exactly the model's (crash points: state after k primitives and
+\* the primitives executed; completed: the sequence of primitive kinds)
+ExactCount(e, f0, pl, s) ==
+  IF s.bad # <<>> THEN 0
+  ELSE Cardinality({j \in DOMAIN s.crashes : CrashExact(e, f0, pl, s.crashes[j].k, s.crashes[j].snap, s.crashes[j].prims)})
+       + (IF s.halt >= 0 THEN (IF CrashExact(e, f0, pl, s.halt, s.snap, s.prims) THEN 1 ELSE 0)
+          ELSE (IF s.prims = Kinds(f0, pl, e.K) THEN 1 ELSE 0))
 
 Max3(a, b) == IF a >= b THEN a ELSE b
 RECURSIVE CountKind(_, _)
@@ -137,6 +150,7 @@ Walk(e, i, st) ==
     [] s.op = "discard" ->
          LET v == UntouchedVerdict(e, s.snap, st.fs, "discard-touched-the-directory") IN
          IF v # "ok" THEN Fail(i, v, st)
+         ELSE IF s.tmpleft > 0 THEN Fail(i, "discard-left-temporary-files-behind", st)
          ELSE Walk(e, i + 1, [st EXCEPT !.pd = <<>>, !.mixed = {}, !.facts.discards = @ + 1])
     [] s.op \in {"finalise", "gate"} ->
          LET left  == IF s.op = "gate" THEN LeftoverDecl(s.counts, s.above, s.specs) ELSE 0
@@ -150,6 +164,7 @@ Walk(e, i, st) ==
               ELSE IF UntouchedVerdict(e, s.snap, st.fs, "refused-run-touched-the-directory") # "ok"
                    THEN Fail(i, UntouchedVerdict(e, s.snap, st.fs, "refused-run-touched-the-directory"), st1)
               ELSE IF DumpsVerdict(e, s.snap) # "ok" THEN Fail(i, DumpsVerdict(e, s.snap), st1)
+              ELSE IF s.tmpleft > 0 THEN Fail(i, "refused-run-left-its-temporary-files-behind", st1)
               ELSE Walk(e, i + 1, [st1 EXCEPT !.pd = <<>>, !.mixed = {}])
          ELSE
               LET R    == Resolutions(st.pd, st.mixed)
@@ -162,6 +177,8 @@ Walk(e, i, st) ==
                               !.appends = @ + CountKind(ks, "AppendDest"),
                               !.highslot = Max3(@, HighSlot(st.fs, pl0, e.K)),
                               !.crashes = @ + Len(s.crashes) + (IF s.halt >= 0 THEN 1 ELSE 0),
+                              !.exact = @ + ExactCount(e, st.fs, pl0, s),
+                              !.observed = @ + (IF s.bad # <<>> THEN 0 ELSE Len(s.crashes) + 1),
                               !.failed = IF s.bad # <<>> THEN @ + 1 ELSE @]]
               IN
               IF s.op = "gate" /\ ~s.wrote THEN Fail(i, "all-warnings-waived-but-run-refused", st1)
@@ -169,10 +186,11 @@ Walk(e, i, st) ==
               ELSE IF s.op = "gate" /\ s.halt < 0 /\ s.exit # 0 THEN Fail(i, "finalised-run-with-non-zero-exit", st1)
               ELSE IF s.op = "gate" /\ DumpsVerdict(e, s.snap) # "ok" THEN Fail(i, DumpsVerdict(e, s.snap), st1)
               ELSE IF s.halt >= 0 \/ s.bad # <<>> THEN [v |-> "ok", facts |-> st1.facts]     \* the history ends with the failure
+              ELSE IF s.tmpleft > 0 THEN Fail(i, "finalisation-left-temporary-files-behind", st1)
               ELSE Walk(e, i + 1, [st1 EXCEPT !.fs = FinalOf(st.fs, pl0, e.K), !.pd = <<>>, !.mixed = {}])
 
 Facts0 == [left |-> 0, warns |-> 0, refused |-> 0, finalised |-> 0, prims |-> 0, backups |-> 0, appends |-> 0, highslot |-> 0,
-           crashes |-> 0, failed |-> 0, mixed |-> 0, reopen |-> 0, discards |-> 0]
+           crashes |-> 0, exact |-> 0, observed |-> 0, failed |-> 0, mixed |-> 0, reopen |-> 0, discards |-> 0]
 
 JudgeHist(e) == Walk(e, 1, [fs |-> FsOf(e, e.pre), pd |-> <<>>, mixed |-> {}, facts |-> Facts0])
 
